@@ -112,7 +112,8 @@ fn dt_tail(ns: i128, sep: u8, off_min: Option<i32>, zone: u8, cal: bool) -> Stri
         _ => {}
     }
     if cal {
-        s += "[u-ca=iso8601]";
+        // calendar identifiers are matched case-insensitively; a critical flag does not change the value
+        s += ["[u-ca=iso8601]", "[u-ca=ISO8601]", "[!u-ca=iso8601]", "[u-ca=Iso8601]"][(sep as usize / 3 + zone as usize) % 4];
     }
     s
 }
@@ -297,6 +298,8 @@ impl SubCheck for YmRouteSub {
         judge_ym(&mut o, "C18/ym.route/str-six-digit-year", &PlainYearMonth::from_str(&s_six), want, cref);
         let s_cal = format!("{}-{:02}[u-ca=iso8601]", ys, m);
         judge_ym(&mut o, "C18/ym.route/str-short-calendar", &PlainYearMonth::from_str(&s_cal), want, cref);
+        judge_ym(&mut o, "C18/ym.route/str-short-calendar-upper-case", &PlainYearMonth::from_str(&format!("{}-{:02}[u-ca=ISO8601]", ys, m)), want, cref);
+        judge_ym(&mut o, "C18/ym.route/str-short-calendar-critical", &PlainYearMonth::from_str(&format!("{}-{:02}[!u-ca=iso8601]", ys, m)), want, cref);
         let s_date = rfmt::date(y, m, day);
         judge_ym(&mut o, "C18/ym.route/str-date", &PlainYearMonth::from_str(&s_date), want, cref);
         let s_date_basic = format!("{}{:02}{:02}", ys, m, day);
@@ -960,6 +963,8 @@ impl SubCheck for MdRouteSub {
         judge_md(&mut o, "C18/md.route/str-basic", &PlainMonthDay::from_str(&format!("{:02}{:02}", m, d)), want, cref);
         judge_md(&mut o, "C18/md.route/str-dashes-basic", &PlainMonthDay::from_str(&format!("--{:02}{:02}", m, d)), want, cref);
         judge_md(&mut o, "C18/md.route/str-short-calendar", &PlainMonthDay::from_str(&format!("{:02}-{:02}[u-ca=iso8601]", m, d)), want, cref);
+        judge_md(&mut o, "C18/md.route/str-short-calendar-upper-case", &PlainMonthDay::from_str(&format!("{:02}-{:02}[u-ca=ISO8601]", m, d)), want, cref);
+        judge_md(&mut o, "C18/md.route/str-short-calendar-critical", &PlainMonthDay::from_str(&format!("--{:02}-{:02}[!u-ca=Iso8601]", m, d)), want, cref);
         let s_date = rfmt::date(y, m, d);
         judge_md(&mut o, "C18/md.route/str-date", &PlainMonthDay::from_str(&s_date), want, cref);
         judge_md(&mut o, "C18/md.route/str-date-basic", &PlainMonthDay::from_str(&format!("{}{:02}{:02}", rfmt::year(y), m, d)), want, cref);
